@@ -273,7 +273,12 @@ func c05Plumbing(c *Ctx, r *Report) {
 		id := fnID(fn)
 		r.funcs[id] = true
 		found := false
-		for _, b := range fn.Blocks {
+		var blocks []*ssa.BasicBlock
+		blocks = append(blocks, fn.Blocks...)
+		for _, af := range fn.AnonFuncs {
+			blocks = append(blocks, af.Blocks...) // the call may sit in a closure the function builds
+		}
+		for _, b := range blocks {
 			for _, in := range b.Instrs {
 				call, ok := in.(*ssa.Call)
 				if !ok {
@@ -454,8 +459,32 @@ func packetCtorsOfSplit(split *ssa.Function) []*ssa.Function {
 
 // c05Loops: R5.4.
 func c05Loops(c *Ctx, r *Report) {
+	hasAppend := func(f *ssa.Function) bool {
+		for _, b := range f.Blocks {
+			for _, in := range b.Instrs {
+				if call, ok := in.(*ssa.Call); ok {
+					if bi, ok := call.Common().Value.(*ssa.Builtin); ok && bi.Name() == "append" {
+						return true
+					}
+				}
+			}
+		}
+		return false
+	}
 	for _, name := range []string{"extractRegisterFields", "extractCoilFields"} {
 		fn := c.fnMust("", "BuilderRequest."+name)
+		// the loop may live in a shared helper both extraction functions delegate to
+		if !hasAppend(fn) {
+			for _, b := range fn.Blocks {
+				for _, in := range b.Instrs {
+					if call, ok := in.(*ssa.Call); ok {
+						if sc := call.Common().StaticCallee(); sc != nil && sc.Pkg == fn.Pkg && sc.Blocks != nil && hasAppend(sc) {
+							fn = sc
+						}
+					}
+				}
+			}
+		}
 		id := fnID(fn)
 		r.funcs[id] = true
 		r.instance("R5.4", 1)
